@@ -301,6 +301,48 @@ func (f *Frame) scanCallMods(li *loopInfo, ins ssa.CallInstruction, ms *modSet, 
 				return
 			}
 		}
+		// a function-valued struct field with a contract: the contract's frame,
+		// taken type-directed (every field of the struct named in a modifies
+		// clause, at any address) - the object is the one holding the field
+		if ld, ok := common.Value.(*ssa.UnOp); ok {
+			if fa, ok := ld.X.(*ssa.FieldAddr); ok {
+				if key, _, ok := f.fieldFuncKeyStatic(fa); ok {
+					if fc := f.w.NamedC[key]; fc != nil {
+						if fc.ModAll {
+							ms.all = true
+							return
+						}
+						pt := fa.X.Type().Underlying().(*types.Pointer)
+						so := f.w.Sorts.SortOf(pt.Elem())
+						info := f.w.Sorts.Struct(so)
+						for _, m := range fc.Modifies {
+							sel, isSel := m.E.(ESel)
+							if !isSel {
+								ms.all = true
+								return
+							}
+							found := false
+							for _, fi := range info.Fields {
+								if fi.Name == sel.Name {
+									found = true
+									if fi.Nested {
+										f.fullStruct(fi.Type, ms)
+									} else {
+										ms.addFull(fieldComp(so, fi.Name), ArraySort(SInt, fi.Sort))
+									}
+								}
+							}
+							if !found {
+								ms.all = true
+								return
+							}
+						}
+						ms.alloc = true
+						return
+					}
+				}
+			}
+		}
 		// callback model: pure
 		return
 	}
